@@ -64,6 +64,11 @@ fn decode(u: &mut Unstructured) -> arbitrary::Result<Vec<Op>> {
 }
 
 fuzz_target!(|data: &[u8]| {
+    // libfuzzer-sys aborts on every panic through its panic hook; panics the library documents
+    // (Batch::new on ragged columns) are expected and caught inside the case runner, so the hook is
+    // wrapped: silent while a case runs, libFuzzer's own (report + abort) otherwise.
+    static HOOK: std::sync::Once = std::sync::Once::new();
+    HOOK.call_once(vcore::runner::install_quiet_panic_hook);
     if data.is_empty() {
         return;
     }
